@@ -756,6 +756,14 @@ impl<'a> ClientAssociationOptions<'a> {
             !presentation_contexts.is_empty(),
             crate::association::MissingAbstractSyntaxSnafu
         );
+        // presentation context IDs are the odd numbers in 1..=255:
+        // with more than 128 proposals the IDs would no longer be distinct
+        ensure!(
+            presentation_contexts.len() <= 128,
+            crate::association::TooManyPresentationContextsSnafu {
+                count: presentation_contexts.len(),
+            }
+        );
 
         // choose called AE title
         let called_ae_title: &str = match (&called_ae_title, ae_title) {
